@@ -234,3 +234,27 @@ func Canon(t map[string]Node, withTimes bool) string {
 	}
 	return sb.String()
 }
+
+
+// Tree1 describes a single node (no recursion).
+func Tree1(p string) Node {
+	fi, err := os.Lstat(p)
+	if err != nil {
+		return Node{Type: "ERR"}
+	}
+	n := Node{Type: typeOf(fi), Perm: uint32(fi.Mode().Perm()), MSec: fi.ModTime().Unix(), MNsec: int64(fi.ModTime().Nanosecond())}
+	switch n.Type {
+	case "file":
+		n.Size = fi.Size()
+		b, err := os.ReadFile(p)
+		if err != nil {
+			n.Sha = "unreadable"
+		} else {
+			h := sha256.Sum256(b)
+			n.Sha = hex.EncodeToString(h[:8])
+		}
+	case "link":
+		n.Target, _ = os.Readlink(p)
+	}
+	return n
+}
